@@ -32,4 +32,18 @@ T22 == Mk(O2, S2, <<<<1, 2>>, <<3, 4>>>>, NoMd, NoMd, "")
 \* a second table with the IDs of T23 in another order (for align_to)
 T23p == Mk(<<"o2", "o1">>, <<"s2", "s3", "s1">>, <<<<9, 8, 7>>, <<6, 5, 4>>>>, NoMd, SMD3, "OTU table")
 T33p == Mk(<<"o3", "o1", "o2">>, <<"s3", "s2", "s1">>, <<<<1, 1, 1>>, <<2, 2, 2>>, <<0, 0, 3>>>>, NoMd, NoMd, "")
+\* single-difference variants of T23 (for equality): one value, one ID, order, one metadata entry, type
+T23val  == Mk(O2, S3, <<<<3, 1, 0>>, <<0, 5, 7>>>>, OMD2, NoMd, "OTU table")
+T23id   == Mk(<<"o1", "o4">>, S3, <<<<3, 1, 0>>, <<0, 5, 6>>>>, OMD2, NoMd, "OTU table")
+T23ord  == Mk(O2, <<"s1", "s3", "s2">>, <<<<3, 0, 1>>, <<0, 6, 5>>>>, OMD2, NoMd, "OTU table")
+T23md   == Mk(O2, S3, <<<<3, 1, 0>>, <<0, 5, 6>>>>,
+              MdRows(<< <<S1("k1", "x"), L1("taxonomy", <<"p", "q">>)>>,
+                        <<S1("k1", "x"), L1("taxonomy", <<"p">>)>> >>), NoMd, "OTU table")
+T23type == Mk(O2, S3, <<<<3, 1, 0>>, <<0, 5, 6>>>>, OMD2, NoMd, "Pathway table")
+T23nomd == Mk(O2, S3, <<<<3, 1, 0>>, <<0, 5, 6>>>>, NoMd, NoMd, "OTU table")
+T23zero == Mk(O2, S3, <<<<3, 1, 0>>, <<0, 0, 6>>>>, OMD2, NoMd, "OTU table")
+\* same IDs in the same order as T23 / T33 (align_to with nothing to move)
+T23same == Mk(O2, S3, <<<<1, 1, 1>>, <<2, 2, 2>>>>, NoMd, NoMd, "")
+T33same == Mk(O3, S3, <<<<9, 8, 7>>, <<6, 5, 4>>, <<3, 2, 1>>>>, NoMd, SMD3, "")
+T33halfsame == Mk(O3, <<"s2", "s1", "s3">>, <<<<9, 8, 7>>, <<6, 5, 4>>, <<3, 2, 1>>>>, NoMd, NoMd, "")
 =============================================================================
